@@ -80,6 +80,18 @@ impl Space for Traj {
             ensure!(ms > -1e-12, "slack-iterate-outside-cone", "iterate #{} (iter {}): cone #{} ({}) relative margin {:e}, s = {:?}", k, it.iter, cs, p.cones[cs].tag(), ms, it.s);
             let (mz, cz) = worst_margin_strict(&p.cones, &it.z, true, &nosk);
             ensure!(mz > -1e-12, "dual-iterate-outside-cone", "iterate #{} (iter {}): cone #{} ({}) relative margin {:e}, z = {:?}", k, it.iter, cz, p.cones[cz].tag(), mz, it.z);
+            // for the nonnegative cone membership is decided entry by entry without any rounding in the
+            // predicate: strict positivity is exact (an entry of exactly 0 makes the NT scaling infinite)
+            let mut off = 0;
+            for c in &p.cones {
+                if let ConeSpec::NN(d) = c {
+                    for i in off..off + d {
+                        ensure!(it.s[i] > 0.0, "slack-iterate-on-boundary", "iterate #{} (iter {}): s[{}] = {:e} in a nonnegative cone", k, it.iter, i, it.s[i]);
+                        ensure!(it.z[i] > 0.0, "dual-iterate-on-boundary", "iterate #{} (iter {}): z[{}] = {:e} in a nonnegative cone", k, it.iter, i, it.z[i]);
+                    }
+                }
+                off += c.numel();
+            }
             // a strategy switch re-enters the loop with the counter advanced, a zero step and an unchanged iterate
             let unchanged = k > 0 && {
                 let pv = &long.iters[k - 1];
@@ -229,6 +241,14 @@ pub fn spaces(tier: &str, _seed: u64) -> Vec<Box<dyn Space>> {
             continue; // PSD(3) trajectories are slow on the plain-Rust LAPACK shims: thorough tier only
         }
         let xids: Vec<u64> = if thorough { (0..3u64.pow(n as u32)).collect() } else { vec![5] };
+        if l.iter().any(|c| matches!(c, NN(k) if *k > 0)) && li != 5 {
+            // loose "no bound" rows (1e18): the start-up shift into the cone has to cope with margins of -1e18
+            v.push(Box::new(Traj {
+                src: Planted::new(l.clone(), n, s0.clone(), Judge::C04, if thorough { 1 } else { 0 }, vec![5], "default").with_loose_rows(),
+                step_rules: rules.clone(),
+                kmax: if thorough { 60 } else { 25 },
+            }));
+        }
         v.push(Box::new(Traj {
             src: Planted::new(l, n, s0.clone(), Judge::C04, 1, xids, "default"),
             step_rules: rules.clone(),
